@@ -59,6 +59,31 @@ type KV struct {
 
 func (KV) TableName() string { return "kv" }
 
+// HKV is KV with model hooks: the hook functions of the record run inside
+// Create, on the handle gorm passes to hooks.
+type HKV struct {
+	K      string                  `gorm:"column:k;primaryKey"`
+	V      int64                   `gorm:"column:v"`
+	Before func(tx *gorm.DB) error `gorm:"-"`
+	After  func(tx *gorm.DB) error `gorm:"-"`
+}
+
+func (HKV) TableName() string { return "kv" }
+
+func (r *HKV) BeforeCreate(tx *gorm.DB) error {
+	if r.Before != nil {
+		return r.Before(tx)
+	}
+	return nil
+}
+
+func (r *HKV) AfterCreate(tx *gorm.DB) error {
+	if r.After != nil {
+		return r.After(tx)
+	}
+	return nil
+}
+
 var keys = []string{"a", "b", "c", "d"}
 
 // ---- programs -------------------------------------------------------------------------------
@@ -75,6 +100,7 @@ const (
 	opRBTo   = "rbto"   // RollbackTo(name) (a save point made earlier in the same block)
 	opBlock  = "block"  // handle.Transaction(func(tx) error {…})
 	opBatch  = "batch"  // CreateInBatches(&rows, size): a library operation that opens its own (nested) Transaction block
+	opHook   = "hook"   // Create(&HKV{k,v}) whose BeforeCreate / AfterCreate hook runs the steps of Child on the handle the hook receives (child blocks included); the hook returns the first error of its steps
 	opManual = "manual" // tx := db.Begin(); …; tx.Commit() / tx.Rollback()   (top level only)
 )
 
@@ -124,7 +150,7 @@ func derive(h *gorm.DB, kind string) *gorm.DB {
 // handle inherits them from the handle it was derived from (Session copies the
 // Config; the handle a block function receives is a Session of the handle
 // Transaction was called on).
-type attr struct{ noNest, skipDef bool }
+type attr struct{ noNest, skipDef, skipHooks bool }
 
 type sessKey struct {
 	base *gorm.DB
@@ -133,8 +159,9 @@ type sessKey struct {
 
 func (x *runner) inherit(h, from *gorm.DB) { x.attrs[h] = x.attrs[from] }
 
-func (x *runner) noNest(h *gorm.DB) bool  { return x.c.Cfg.NoNest || x.attrs[h].noNest }
-func (x *runner) skipDef(h *gorm.DB) bool { return x.c.Cfg.SkipDef || x.attrs[h].skipDef }
+func (x *runner) noNest(h *gorm.DB) bool    { return x.c.Cfg.NoNest || x.attrs[h].noNest }
+func (x *runner) skipDef(h *gorm.DB) bool   { return x.c.Cfg.SkipDef || x.attrs[h].skipDef }
+func (x *runner) skipHooks(h *gorm.DB) bool { return x.attrs[h].skipHooks }
 
 // session derives (or, for Cached steps, finds again) the session of a step.
 func (x *runner) session(base *gorm.DB, st Step) *gorm.DB {
@@ -155,6 +182,8 @@ func (x *runner) session(base *gorm.DB, st Step) *gorm.DB {
 		a.skipDef = true
 	case seNoNest:
 		a.noNest = true
+	case seSkipHooks:
+		a.skipHooks = true // (Statement.SkipHooks travels with the statement into the blocks started from this session)
 	}
 	x.attrs[h] = a
 	if st.Cached && st.Sess != seInit {
@@ -189,6 +218,7 @@ type Step struct {
 	Cached    bool   // the derived session is kept and used again by later steps that ask for the same kind from the same handle
 	CtxCancel bool   // nested block: started as h.WithContext(ctx2).Transaction(…); ctx2 is cancelled at the end of the block function, just before its outcome
 	Conn      bool   // top level: the step runs inside db.Connection(func(c) …) on the dedicated connection handle c
+	When      string // hook: "before" (BeforeCreate) or "after" (AfterCreate)
 	Opts      string // block / manual: the *sql.TxOptions argument ("" none, "nil", "zero", "serializable")
 	Read      string // read: how ("" Find, "rawscan", "rows", "count", "subquery")
 	Form      string // batch: value form ("" []KV, "ptrs" []*KV, "array" [n]KV, "maps" []map[string]interface{} with Model)
@@ -300,6 +330,10 @@ func (s Step) render(sb *strings.Builder) {
 	}
 	switch s.Op {
 	case opBlock, opManual:
+	case opHook:
+		defer func() {
+			sb.WriteString(via) // after the hook body
+		}()
 	default:
 		defer sb.WriteString(via)
 	}
@@ -314,6 +348,9 @@ func (s Step) render(sb *strings.Builder) {
 		if s.Reuse {
 			sb.WriteString("+read")
 		}
+	case opHook:
+		fmt.Fprintf(sb, "hook-%s(%s,%d)", s.When, s.K, s.V)
+		s.Child.render(sb)
 	case opRead:
 		sb.WriteString("read")
 		if s.Read != "" {
@@ -462,6 +499,13 @@ func (w *walker) steps(b *Body, kind int) int {
 			} else if blockMode && !w.cfg.NoNest {
 				w.sps = append(w.sps, spEvent{nested: true, parent: b, parentKind: kind, stepIdx: i})
 			}
+		case opHook:
+			w.stmts++
+			if kind == frTop {
+				w.begins++
+				w.commits++
+			}
+			w.steps(st.Child, frNested)
 		case opSP:
 			w.sps = append(w.sps, spEvent{})
 		case opRBTo:
@@ -607,6 +651,7 @@ type runner struct {
 	txKilled bool           // the running outermost transaction has been finished behind Commit's back (manual Rollback / cancelled context)
 	excluded string         // the case turned out to be in a listed known-finding class
 	faultErr error          // what an injected fault returns
+	inHook   int            // hook bodies that are running
 	goexit   bool           // the program has called runtime.Goexit: the goroutine is unwinding
 	handles  []*gorm.DB     // handles of the blocks that are running, outermost first
 	active   []*activeBlock // Transaction blocks that are running
@@ -825,6 +870,105 @@ func (x *runner) primitive(h *gorm.DB, st Step, where string) error {
 		return x.readAs(h, where, st.Read)
 	}
 	x.harnessEr = "unknown primitive " + st.Op
+	return nil
+}
+
+// hookPut creates the record (k,v) with a model hook that runs the steps of
+// st.Child on the handle gorm hands to hooks. That handle is a session of the
+// statement, i.e. it is inside the statement's transaction: the explicit one
+// (inTx) or, on the root handle, the default transaction of the Create (which
+// makes the statement, hook included, all-or-nothing). Blocks the hook opens are
+// nested blocks like any other.
+func (x *runner) hookPut(h *gorm.DB, st Step, where string, inTx bool) error {
+	what := fmt.Sprintf("%s hook-%s(%s,%d)", where, st.When, st.K, st.V)
+	x.class("op:hook-" + st.When)
+	snap := clone(x.cur)
+	skip := x.skipHooks(h)
+	if skip {
+		x.class("hook:not-called(SkipHooks)")
+	}
+	ran := false
+	var hookErr error
+	body := func(tx *gorm.DB) error {
+		ran = true
+		x.inherit(tx, h)
+		if st.When == "after" {
+			if x.takeFired() {
+				x.harnessEr = "AfterCreate ran although the INSERT was faulted"
+			}
+			x.cur[st.K] = st.V
+			x.wrote()
+		}
+		if !inTx {
+			x.depth++
+			if x.depth > x.maxDepth {
+				x.maxDepth = x.depth
+			}
+			defer func() { x.depth-- }()
+		}
+		x.inHook++
+		defer func() { x.inHook-- }()
+		hookErr = x.runSteps(tx, st.Child, &frame{kind: frNested})
+		return hookErr
+	}
+	row := &HKV{K: st.K, V: st.V}
+	if st.When == "before" {
+		row.Before = body
+	} else {
+		row.After = body
+	}
+	res := h.Clauses(clause.OnConflict{UpdateAll: true}).Create(row)
+	fired := x.takeFired()
+	err := res.Error
+	fail := func(e error) error {
+		if !inTx {
+			x.cur = snap // the default transaction of the statement is rolled back, hook writes included
+		}
+		return e
+	}
+	if ran && skip {
+		x.violate("%s: the hook ran although the handle skips hooks", what)
+	}
+	switch {
+	case ran && hookErr != nil:
+		// a step of the hook failed: the hook returned that error, the statement fails with it
+		if fired {
+			x.harnessEr = "fault fired after a failed hook"
+		}
+		if err == nil {
+			x.violate("%s: the hook returned %q but Create reported no error", what, hookErr)
+			return fail(hookErr)
+		}
+		if !sameErr(err, hookErr) {
+			x.violate("%s: the hook returned %q but Create reported %q", what, hookErr, err)
+		}
+		return fail(err)
+	case fired:
+		// BEGIN / INSERT / COMMIT of the statement failed
+		x.noteFailure()
+		x.class("fault-hit:in-" + x.faultHit)
+		if st.When == "after" && ran && inTx {
+			x.harnessEr = "fault fired after AfterCreate inside an explicit transaction"
+		}
+		if err == nil {
+			x.violate("%s: a driver call failed with the injected fault but Create reported no error", what)
+			err = x.faultErr
+		} else if !errors.Is(err, x.faultErr) {
+			x.violate("%s: returned error %q which is not the injected driver error", what, err)
+		}
+		return fail(err)
+	}
+	if err != nil {
+		x.violate("%s: unexpected error %q (no fault was injected into this statement)", what, err)
+		return nil
+	}
+	if !ran && !skip {
+		x.violate("%s: Create succeeded but the hook never ran", what)
+	}
+	if st.When == "before" || !ran {
+		x.cur[st.K] = st.V
+		x.wrote()
+	}
 	return nil
 }
 
@@ -1068,6 +1212,10 @@ func (x *runner) runSteps(own *gorm.DB, b *Body, fr *frame) error {
 			}
 			x.cur = clone(fr.sps[idx].snap)
 			fr.sps = fr.sps[:idx+1]
+		case opHook:
+			if e := x.hookPut(h, st, where, true); e != nil {
+				return e
+			}
 		case opBatch:
 			failed, err := x.batch(h, st, where, true)
 			if failed {
@@ -1176,6 +1324,19 @@ func (x *runner) callBlock(h *gorm.DB, child *Body, root bool, opts string, ctxC
 		h = base.WithContext(ctx2)
 		x.inherit(h, base)
 		atEnd = cancel2
+	}
+	if !root && x.inHook > 0 && !x.noNest(h) {
+		x.class("block:nested-below-a-model-hook")
+		if p, ok := h.Statement.ConnPool.(*gorm.PreparedStmtTX); ok {
+			if _, double := p.Tx.(*gorm.PreparedStmtTX); double {
+				// SAVEPOINT goes through a prepared statement (Session{PrepareStmt} taken inside a
+				// transaction that already uses prepared statements)
+				x.class("shape:nested-block-below-a-hook-with-prepared-SAVEPOINT")
+				if harness.OpenClass("C04", "hook-nested-prepared-savepoint") {
+					x.excluded = "hook-nested-prepared-savepoint"
+				}
+			}
+		}
 	}
 	where := fmt.Sprintf("Transaction #%d", child.ID)
 	snap := clone(x.cur)
@@ -1643,6 +1804,9 @@ func runCase(c Case) result {
 				}
 			case opManual:
 				x.manual(root, st.Child, st.Opts)
+			case opHook:
+				x.class("op:top-level-hook")
+				_ = x.hookPut(root, st, "top level", false)
 			case opBatch:
 				x.class("op:top-level-batch")
 				x.batch(root, st, "top level", false)
@@ -1850,6 +2014,7 @@ func uniform(rt *rapid.T, label string, n int) int {
 }
 
 type gen struct {
+	inHook   int // >0 while generating the body of a hook: no Goexit below it (a hook cannot hand it on in an orderly way: the default transaction of its statement has no deferred rollback)
 	fav      string
 	startIdx []int // per running block (outermost first): index of the handle it was started from (-1: the root handle)
 	rt       *rapid.T
@@ -1941,7 +2106,7 @@ func (g *gen) batchStep() Step {
 	n := 2 + uniform(g.rt, "rows", 4)
 	st := Step{Op: opBatch, Size: 1 + uniform(g.rt, "size", 3), Swallow: uniform(g.rt, "swallow", 3) < 2,
 		Form:      []string{"", "", "", "ptrs", "array", "maps"}[uniform(g.rt, "form", 6)],
-		ViaCreate: uniform(g.rt, "viacreate", 3) == 0}
+		ViaCreate: uniform(g.rt, "viacreate", 3) == 0 && g.inHook == 0}
 	for i := 0; i < n; i++ {
 		v := g.value()
 		st.Rows = append(st.Rows, KV{K: fmt.Sprintf("n%d", v), V: v})
@@ -1956,10 +2121,50 @@ func (g *gen) batchStep() Step {
 	return st
 }
 
+// hookStep: a Create whose BeforeCreate / AfterCreate hook runs 1–3 steps on the
+// handle it receives: mostly child blocks (the hook handles their failure: error
+// swallowed, panic recovered), some plain statements.
+func (g *gen) hookStep(depth int) Step {
+	st := Step{Op: opHook, K: keys[uniform(g.rt, "key", len(keys))], V: g.value(), When: []string{"after", "before"}[uniform(g.rt, "when", 2)]}
+	b := &Body{ID: g.nextID, Out: outNil}
+	g.nextID++
+	g.inHook++
+	g.startIdx = append(g.startIdx, -1)
+	n := 1 + uniform(g.rt, "hooksteps", 3)
+	for i := 0; i < n; i++ {
+		if g.budget > 0 {
+			g.budget--
+		}
+		if uniform(g.rt, "hookkind", 10) < 7 && depth+2 <= g.maxDepth {
+			v := g.via(depth+1, true)
+			g.startIdx = append(g.startIdx, depth-v)
+			ch := g.body(depth+2, false)
+			g.startIdx = g.startIdx[:len(g.startIdx)-1]
+			b.Steps = append(b.Steps, Step{Op: opBlock, Child: ch, Via: v, Sess: g.sess(15), Swallow: true, Recover: true})
+		} else {
+			p := g.primitive(false)
+			p.Via = g.via(depth+1, false)
+			b.Steps = append(b.Steps, p)
+		}
+	}
+	g.startIdx = g.startIdx[:len(g.startIdx)-1]
+	g.inHook--
+	st.Child = b
+	return st
+}
+
 // sess decorates a step with a session derived from the handle it uses.
 func (g *gen) sess(percent int) string {
 	if uniform(g.rt, "sess?", 100) >= percent {
 		return ""
+	}
+	if g.inHook > 0 {
+		// The handle a hook receives shares the Statement of the running Create (hooks read
+		// tx.Statement); a session that is not NewDB clones that statement, SQL, Vars and clauses
+		// included, and so do the handles of the blocks started from it. What such a session
+		// does is not C04's subject (and not documented; even Session{Initialized: true} re-runs
+		// the INSERT of the hook's statement): below a hook only Session{NewDB: true}.
+		return seNewDB
 	}
 	k := sessKinds[uniform(g.rt, "sess", len(sessKinds))]
 	if g.fav == "" {
@@ -2043,7 +2248,12 @@ func (g *gen) body(depth int, manual bool) *Body {
 		g.budget--
 		r := uniform(g.rt, "kind", 100)
 		switch {
-		case r < 7:
+		case r < 5 && depth+2 <= g.maxDepth:
+			st := g.hookStep(depth)
+			st.Via = g.via(depth, false)
+			st.Sess = g.sess(20)
+			b.Steps = append(b.Steps, st)
+		case r < 11:
 			st := g.batchStep()
 			st.Via = g.via(depth, false)
 			st.Sess = g.sess(20)
@@ -2058,7 +2268,7 @@ func (g *gen) body(depth int, manual bool) *Body {
 			g.startIdx = append(g.startIdx, depth-1-v)
 			ch := g.body(depth+1, false)
 			g.startIdx = g.startIdx[:len(g.startIdx)-1]
-			b.Steps = append(b.Steps, Step{Op: opBlock, Child: ch, Via: v, Sess: g.sess(20), Opts: g.opts(), CtxCancel: uniform(g.rt, "ctx2", 8) == 7,
+			b.Steps = append(b.Steps, Step{Op: opBlock, Child: ch, Via: v, Sess: g.sess(20), Opts: g.opts(), CtxCancel: uniform(g.rt, "ctx2", 8) == 7 && g.inHook == 0,
 				Swallow: uniform(g.rt, "swallow", 3) < 2,
 				Recover: rapid.Bool().Draw(g.rt, "recover")})
 		case r < spBelow:
@@ -2090,6 +2300,9 @@ func (g *gen) body(depth int, manual bool) *Body {
 	} else {
 		outs := []string{outNil, outNil, outNil, outNil, outNil, outNil, outNil, outErr, outErr, outErr, outErrU, outPanic, outPanic, outPanic, outPanicNil, outGoexit}
 		b.Out = outs[uniform(g.rt, "outcome", len(outs))]
+		if b.Out == outGoexit && g.inHook > 0 {
+			b.Out = outPanic
+		}
 		if b.Out == outErr && rapid.Bool().Draw(g.rt, "errvalue?") {
 			b.Err = errValues[uniform(g.rt, "errvalue", len(errValues))]
 		}
@@ -2128,7 +2341,16 @@ func genCase(rt *rapid.T) Case {
 		case r < 82:
 			g.startIdx = []int{-1}
 			c.Top.Steps = append(c.Top.Steps, Step{Op: opManual, Sess: g.sess(25), Opts: g.opts(), Conn: uniform(rt, "conn", 6) == 5, Child: g.body(1, true)})
-		case r < 87:
+		case r < 86 && !c.Cfg.SkipDef:
+			// (on the root handle the hook runs in the default transaction of its statement; without
+			// one there is no enclosing transaction and the hook's blocks are outermost blocks)
+			st := g.hookStep(0)
+			st.Sess = g.sess(25)
+			if strings.HasPrefix(st.Sess, seSkipDef) {
+				st.Sess = ""
+			}
+			c.Top.Steps = append(c.Top.Steps, st)
+		case r < 90:
 			st := g.batchStep()
 			st.Sess = g.sess(25)
 			st.Conn = uniform(rt, "conn", 6) == 5
@@ -2229,7 +2451,7 @@ func ownSavepoints(b *Body) {
 }
 
 const rule = "C04: programs on a key→value table: 1-3 top-level steps (db.Transaction tree of depth ≤4, manual Begin…Commit/Rollback, single write/read), " +
-	"block bodies of put/rawput/upd/del/read/SavePoint/RollbackTo/child-block/CreateInBatches steps (CreateInBatches opens its own block; a batch fails by fault or by a repeated key) ending in return nil | return error | panic(value) | panic(nil) | runtime.Goexit() (outermost blocks and manual programs also: Rollback by hand or cancelled context, then return nil / Commit; nested blocks also started WithContext(ctx2) with ctx2 cancelled at the end), parents returning or swallowing a child's error " +
+	"block bodies of put/rawput/upd/del/read/SavePoint/RollbackTo/child-block/CreateInBatches steps (CreateInBatches opens its own block; a batch fails by fault or by a repeated key; a Create whose BeforeCreate/AfterCreate model hook runs steps and child blocks on the handle gorm passes to hooks) ending in return nil | return error | panic(value) | panic(nil) | runtime.Goexit() (outermost blocks and manual programs also: Rollback by hand or cancelled context, then return nil / Commit; nested blocks also started WithContext(ctx2) with ctx2 cancelled at the end), parents returning or swallowing a child's error " +
 	"and optionally recovering its panic, every step inside a block going through the block's own handle or the captured handle of any enclosing block (same transaction), optionally through a session derived from that handle (Session{PrepareStmt}, Session{}, Session{NewDB}, WithContext, Session{SkipHooks}, Session{Logger}); manual save point names short, long (67-110 bytes sharing the first 64+ bytes), with digits/underscores/mixed case, private per block; configuration bits PrepareStmt, DisableNestedTransaction, SkipDefaultTransaction (the last two also per Session), CreateBatchSize, TranslateError, RETURNING support; blocks and manual programs with and without *sql.TxOptions and inside db.Connection; fault plan none or the k-th BEGIN/COMMIT/SAVEPOINT/statement/PREPARE " +
 	"driver call fails (never ROLLBACK / ROLLBACK TO), or the k-th statement inside a transaction fails with driver.ErrBadConn and its connection stays bad; a block that returns an error returns its own sentinel or a value of the database layer (context.Canceled/DeadlineExceeded bare and wrapped, sql.ErrTxDone, sql.ErrConnDone, driver.ErrBadConn, gorm.ErrInvalidTransaction, gorm.ErrRecordNotFound); non-trivial = nesting depth ≥2 reached and at least one failure (block returning an error or panicking, fired fault) with successful writes both before and after it; " +
 	"distinct = configuration + fault plan + initial rows + program text"
@@ -2366,5 +2588,52 @@ func TestC04WitnessNestedContextRollback(t *testing.T) {
 			t.Errorf("prepare=%v: durable table is %s, want {a=1}: the write of the failed nested block was committed", prepare, table)
 		}
 		d.Close()
+	}
+}
+
+// A nested block opened by an AfterCreate hook on the handle the hook receives.
+// DB.Transaction sets the save point through db.Session(&Session{}), which
+// clones the Statement of the running Create (SQL and bind values included; the
+// hook's handle shares it) and Exec only resets the SQL: SAVEPOINT is sent with
+// the INSERT's bind values. SQLite ignores surplus values on a direct exec, but
+// when the statement goes through a prepared statement (Session{PrepareStmt}
+// taken inside a transaction that already uses prepared statements) database/sql
+// rejects it: the nested block is refused with "sql: expected 0 arguments, got 2"
+// although nothing failed.
+func TestC04WitnessHookNestedSavepoint(t *testing.T) {
+	d := testdb.Open(testdb.Options{Config: gorm.Config{PrepareStmt: true}})
+	defer d.Close()
+	if _, err := d.SQL.Exec("CREATE TABLE kv (k TEXT PRIMARY KEY, v INTEGER NOT NULL)"); err != nil {
+		t.Fatalf("harness: %v", err)
+	}
+	d.Rec.Reset()
+	ran := false
+	var childErr error
+	err := d.Transaction(func(tx *gorm.DB) error {
+		return tx.Session(&gorm.Session{PrepareStmt: true}).Create(&HKV{K: "a", V: 1, After: func(htx *gorm.DB) error {
+			childErr = htx.Transaction(func(tx2 *gorm.DB) error {
+				ran = true
+				return tx2.Session(&gorm.Session{NewDB: true}).Create(&KV{K: "b", V: 2}).Error
+			})
+			return nil
+		}}).Error
+	})
+	table, rerr := rawTable(d.SQL)
+	if rerr != nil {
+		t.Fatalf("harness: %v", rerr)
+	}
+	if err != nil {
+		t.Errorf("outermost Transaction returned %v", err)
+	}
+	if childErr != nil || !ran {
+		t.Errorf("nested block opened by the AfterCreate hook: returned %v, block function ran: %v (no fault was injected)", childErr, ran)
+	}
+	if table != "{a=1,b=2}" {
+		t.Errorf("durable table is %s, want {a=1,b=2}", table)
+	}
+	for _, e := range d.Rec.Events() {
+		if strings.HasPrefix(e.Text, "SAVEPOINT") && len(e.Args) > 0 {
+			t.Logf("note: %v carries the bind values of the hook's INSERT", e)
+		}
 	}
 }
